@@ -116,10 +116,10 @@ type world struct {
 	mu      sync.Mutex
 	log     []logEv
 	nextPid int
-	cur     script         // forced mode
-	table   []script       // free mode: per requested/proposal fact
+	cur     script   // forced mode
+	table   []script // free mode: per requested/proposal fact
 	free    bool
-	noise   atomic.Uint64  // free mode: yield noise
+	noise   atomic.Uint64 // free mode: yield noise
 	pps     *isaac.ProposalProcessors
 }
 
@@ -347,18 +347,19 @@ func newWorld(u *universe, free bool) *world {
 type opT struct {
 	Kind string `json:"op"` // process | save | cancel | h-accept | h-saveblock (the last two go through the voteproof handler)
 	Fact int    `json:"fact"`
-	H    int64  `json:"h"`  // save: height of the ACCEPT voteproof
-	NB   int    `json:"nb"` // save: new block (manifest id)
-	Rd   int    `json:"round"` // save: round of the ACCEPT voteproof (the model only knows heights: rounds must not matter)
+	H    int64  `json:"h"`             // save: height of the ACCEPT voteproof
+	NB   int    `json:"nb"`            // save: new block (manifest id)
+	Rd   int    `json:"round"`         // save: round of the ACCEPT voteproof (the model only knows heights: rounds must not matter)
 	Maj  bool   `json:"maj,omitempty"` // h-accept: the ACCEPT voteproof has a majority
 	M    int    `json:"m,omitempty"`   // h-accept: manifest (id) the handler got from processing
 	S    script `json:"script"`
 }
 
 // the voteproof handler's entry points, as a refinement of the ProposalProcessors ops:
-//   h-saveblock                         = Save
-//   h-accept, majority and M == NB      = Save
-//   h-accept otherwise                  = Cancel   (no block may be written)
+//
+//	h-saveblock                         = Save
+//	h-accept, majority and M == NB      = Save
+//	h-accept otherwise                  = Cancel   (no block may be written)
 func (o opT) modelKind() string {
 	switch o.Kind {
 	case "h-saveblock":
@@ -675,24 +676,26 @@ func corpus() ([]int64, [][]opT) {
 		return opT{Kind: "process", Fact: f, S: s}
 	}
 	sv := func(f int, h int64, nb int) opT { return opT{Kind: "save", Fact: f, H: h, NB: nb, Rd: f, S: ok} }
-	svr := func(f int, h int64, rd int, nb int) opT { return opT{Kind: "save", Fact: f, H: h, NB: nb, Rd: rd, S: ok} }
+	svr := func(f int, h int64, rd int, nb int) opT {
+		return opT{Kind: "save", Fact: f, H: h, NB: nb, Rd: rd, S: ok}
+	}
 	cn := opT{Kind: "cancel", S: ok}
 	return hs, [][]opT{
-		{p(0, nil), sv(0, 3, 1)},                                                                  // plain save
-		{p(0, nil), sv(0, 3, 2), p(0, nil), sv(0, 3, 1)},                                          // mismatch burns the height
-		{p(0, nil), sv(0, 3, 1), p(1, nil), sv(1, 3, 1)},                                          // second proposal, same height
-		{p(0, nil), sv(0, 3, 1), p(2, nil), sv(2, 4, 1), p(1, nil), sv(1, 3, 1)},                  // lower height later
-		{p(0, nil), p(1, func(s *script) { s.GP = -1 }), sv(0, 3, 1)},                             // cancelled processor stays reachable
-		{p(0, func(s *script) { s.MK = 1 }), p(1, func(s *script) { s.GP = -1 }), sv(0, 3, 1)},    // ... stub: saves
-		{p(0, nil), p(1, func(s *script) { s.MK = -1 }), sv(0, 3, 1)},                             // makenew fails after cancel
-		{p(0, nil), cn, sv(0, 3, 1)},                                                              // cancel then save
-		{p(0, func(s *script) { s.PO = 2 }), sv(0, 3, 1)},                                         // ignored error: no manifest
-		{p(0, func(s *script) { s.PO = 3 }), sv(0, 3, 1)},                                         // not processed
-		{p(0, nil), sv(1, 3, 1)},                                                                  // other fact
+		{p(0, nil), sv(0, 3, 1)},                                                                           // plain save
+		{p(0, nil), sv(0, 3, 2), p(0, nil), sv(0, 3, 1)},                                                   // mismatch burns the height
+		{p(0, nil), sv(0, 3, 1), p(1, nil), sv(1, 3, 1)},                                                   // second proposal, same height
+		{p(0, nil), sv(0, 3, 1), p(2, nil), sv(2, 4, 1), p(1, nil), sv(1, 3, 1)},                           // lower height later
+		{p(0, nil), p(1, func(s *script) { s.GP = -1 }), sv(0, 3, 1)},                                      // cancelled processor stays reachable
+		{p(0, func(s *script) { s.MK = 1 }), p(1, func(s *script) { s.GP = -1 }), sv(0, 3, 1)},             // ... stub: saves
+		{p(0, nil), p(1, func(s *script) { s.MK = -1 }), sv(0, 3, 1)},                                      // makenew fails after cancel
+		{p(0, nil), cn, sv(0, 3, 1)},                                                                       // cancel then save
+		{p(0, func(s *script) { s.PO = 2 }), sv(0, 3, 1)},                                                  // ignored error: no manifest
+		{p(0, func(s *script) { s.PO = 3 }), sv(0, 3, 1)},                                                  // not processed
+		{p(0, nil), sv(1, 3, 1)},                                                                           // other fact
 		{p(0, func(s *script) { s.GP = 1 }), sv(0, 3, 1), p(0, func(s *script) { s.GP = 1 }), sv(1, 3, 1)}, // getproposal answers with another proposal
-		{p(0, nil), sv(0, 7, 1), p(2, nil), sv(2, 4, 1)},                                          // voteproof height above the proposal's
-		{p(0, func(s *script) { s.MK = 1; s.COK = false }), p(1, nil), cn, sv(0, 3, 1)},           // stub whose Cancel fails
-		{p(0, nil), sv(0, 3, 1), sv(0, 3, 1), sv(0, 4, 1)},                                        // repeated saves
+		{p(0, nil), sv(0, 7, 1), p(2, nil), sv(2, 4, 1)},                                                   // voteproof height above the proposal's
+		{p(0, func(s *script) { s.MK = 1; s.COK = false }), p(1, nil), cn, sv(0, 3, 1)},                    // stub whose Cancel fails
+		{p(0, nil), sv(0, 3, 1), sv(0, 3, 1), sv(0, 4, 1)},                                                 // repeated saves
 		// rounds: after a save at (3, round 0): the proposal of a LATER round of the same height (a late next-round
 		// INIT voteproof), matching and mismatching manifests; then lower rounds; then the next height
 		{p(0, nil), sv(0, 3, 1), p(1, nil), sv(1, 3, 1)},
@@ -901,4 +904,3 @@ func main() {
 	}
 	res.Write(o.Out)
 }
-
